@@ -9,6 +9,9 @@ struct Rewriter {
   original_functions: HashMap<mir::FunctionName, hir::Function>,
   used_string_names: HashSet<PStr>,
   specialized_type_definition_names: HashSet<mir::TypeNameId>,
+  /// Enum types whose specialization has started. Until such an enum is finished (i.e. it is in
+  /// `specialized_type_definitions`), its layout is unknown: it may have int31 or unboxed variants.
+  enum_type_names_in_progress: HashSet<mir::TypeNameId>,
   specialized_function_names: HashSet<mir::FunctionName>,
   specialized_closure_definitions: Vec<mir::ClosureTypeDefinition>,
   specialized_type_definitions: HashMap<mir::TypeNameId, mir::TypeDefinition>,
@@ -578,6 +581,7 @@ impl Rewriter {
               .collect_vec(),
           ),
           hir::TypeDefinitionMappings::Enum(hir_variants) => {
+            self.enum_type_names_in_progress.insert(mir_type_name);
             let mut mir_variants = Vec::with_capacity(hir_variants.len());
             let mut permit_unboxed_optimization = true;
             let mut already_unused_boxed_optimization = None;
@@ -637,8 +641,11 @@ impl Rewriter {
       mir::Type::Int32 | mir::Type::Int31 => false,
       mir::Type::Id(type_id) => {
         let Some(type_def) = self.specialized_type_definitions.get(type_id) else {
-          // Recursive type currently being processed - must be heap-allocated (pointer).
-          return self.specialized_type_definition_names.contains(type_id);
+          // Recursive type currently being processed. Structs and closures are always pointers,
+          // but an enum whose layout is still being decided may turn out to have int31 or
+          // unboxed variants, so its values cannot be told apart from our int31 tags.
+          return self.specialized_type_definition_names.contains(type_id)
+            && !self.enum_type_names_in_progress.contains(type_id);
         };
         match &type_def.mappings {
           // Structs are always pointers.
@@ -706,6 +713,7 @@ pub(super) fn perform_generics_specialization(
       .collect(),
     used_string_names: HashSet::new(),
     specialized_type_definition_names: HashSet::new(),
+    enum_type_names_in_progress: HashSet::new(),
     specialized_function_names: HashSet::new(),
     specialized_closure_definitions: Vec::new(),
     specialized_type_definitions: HashMap::new(),
